@@ -390,7 +390,7 @@ def run_outcap(run, P, units=('coap_uri.c',)):
             run.instance('R-LEN-READ', '%s: %s(.., %s) with capacity %s' % (name, sev['e']['fn'], [k for k, v in vars_.items() if v == d][0], [k for k, v in vars_.items() if v == c][0]))
         # kill must also apply when the destination pointer moves: encode by making the tuple contain 'D:<ptr>' and filtering on the raw ap
         solve(f, Env({'fresh': frozenset()}), lambda ev, env, ctx: _outcap_event(ev, env, ctx, on_event, watched), None, keys, R, key_fn=lambda e: e.ts.get('fresh'), on_branch=on_branch)
-    run.require(n >= 1 or run.fixture_mode, 'R-LEN-READ(output): no write through an unsized callee parameter with a travelling capacity found in %s' % (units,))
+    run.require_count(n >= 1 or run.fixture_mode, 'R-LEN-READ(output): no write through an unsized callee parameter with a travelling capacity found in %s' % (units,))
 
 
 def _outcap_event(ev, env, ctx, inner, watched):
@@ -511,4 +511,4 @@ def run_accum_guard(run, P, units=('coap_uri.c',)):
                     run.violation('R-LEN-READ', f['name'], b['term'].get('loc') or f['loc'], 'accumulator-guard-exit-accepted:%d' % cex,
                                   'the digit loop stops when its value guard (%s %d) fails, which it does at the value %d with digits still unread, but the range check after the loop '
                                   '(%s %d) lets %d through: the unread digits are dropped and an out-of-range number is accepted as %d' % (op1, K1, cex, op2, K2, cex, cex), [])
-    run.require(n >= 1 or run.fixture_mode, 'R-LEN-READ(accumulator guard): no guarded digit accumulation followed by a range check found in %s' % (units,))
+    run.require_count(n >= 1 or run.fixture_mode, 'R-LEN-READ(accumulator guard): no guarded digit accumulation followed by a range check found in %s' % (units,))
